@@ -72,7 +72,7 @@ Print Assumptions C16_grid_adjacency_symmetric.
    the same own pixels with the same values, children that correspond one to one;
    identifiers, the order of own pixels and the order of children are not compared (they are
    naming: the final identifiers go by smallest pixel index, which a relabelling changes). *)
-From Dendro Require Import PixelMap GridIso GridSym.
+From Dendro Require Import PixelMap GridIso AxisPerm GridSym.
 
 Theorem C16_tsim_means_same_pixels :
   forall g t t', tsim g t t' ->
@@ -158,6 +158,20 @@ Theorem C16_exchange_neighbouring_axes :
   forall a shape per, allpos shape -> (S a < length shape)%nat -> length per = length shape ->
     giso shape per (swapped a shape) (swapped a per) (swap_at a shape).
 Proof. exact giso_swap_at. Qed.
+(* ANY permutation of the axes (numpy transpose): axes = (length, periodic?) pairs; the
+   permutation is reached by exchanges of neighbours ks, and the composed relabelling
+   swaps_map ks is an isomorphism (AxisPerm.v; tied to numpy's transpose by the relabel tie) *)
+Theorem C16_any_axis_permutation :
+  forall axes axes' : list (Z * bool), Permutation axes axes' -> allpos (map fst axes) ->
+  exists ks, Forall (fun k => (S k < length axes)%nat) ks /\ swaps ks axes = axes' /\
+    giso (map fst axes) (map snd axes) (map fst axes') (map snd axes') (swaps_map ks (map fst axes)).
+Proof. exact giso_axis_permutation. Qed.
+Theorem C16_sequence_of_exchanges :
+  forall ks shape per, allpos shape -> length per = length shape ->
+    Forall (fun k => (S k < length shape)%nat) ks ->
+    giso shape per (swaps ks shape) (swaps ks per) (swaps_map ks shape).
+Proof. exact giso_swaps. Qed.
+Print Assumptions C16_any_axis_permutation.
 (* isomorphisms compose *)
 Theorem C16_isomorphisms_compose :
   forall s0 p0 s1 p1 s2 p2 g1 g2,
